@@ -29,24 +29,31 @@
 
 namespace hb {
 
-// history <-> 64-bit replay id: length in the top byte, one byte per op (max 7 ops)
+// A history is a string holding 2 bytes per operation code (menu of up to 1024 operations).
+static inline size_t hlen(const std::string& h) { return h.size() / 2; }
+static inline unsigned hop(const std::string& h, size_t i) { return (unsigned)(uint8_t)h[2 * i] | ((unsigned)(uint8_t)h[2 * i + 1] << 8); }
+static inline void hpush(std::string& h, unsigned op) {
+  h.push_back((char)(op & 0xff));
+  h.push_back((char)(op >> 8));
+}
+// history <-> 64-bit replay id: length in the top 4 bits, 10 bits per op (max 6 ops)
 static inline uint64_t pack(const std::string& h) {
-  uint64_t v = (uint64_t)h.size() << 56;
-  for (size_t i = 0; i < h.size() && i < 7; i++) v |= (uint64_t)(uint8_t)h[i] << (8 * i);
+  uint64_t v = (uint64_t)hlen(h) << 60;
+  for (size_t i = 0; i < hlen(h) && i < 6; i++) v |= (uint64_t)(hop(h, i) & 1023) << (10 * i);
   return v;
 }
 static inline std::string unpack(uint64_t v) {
-  size_t n = (size_t)(v >> 56);
+  size_t n = (size_t)(v >> 60);
   std::string h;
-  for (size_t i = 0; i < n && i < 7; i++) h.push_back((char)((v >> (8 * i)) & 0xff));
+  for (size_t i = 0; i < n && i < 6; i++) hpush(h, (unsigned)((v >> (10 * i)) & 1023));
   return h;
 }
 template <class Sim>
 static std::string trace_of(const std::string& h) {
   std::string t;
-  for (unsigned char c : h) {
+  for (size_t i = 0; i < hlen(h); i++) {
     if (!t.empty()) t += " ; ";
-    t += Sim::op_name(c);
+    t += Sim::op_name(hop(h, i));
   }
   return t;
 }
@@ -80,11 +87,11 @@ struct Explorer {
     printf("REPLAY-CASE history: %s\n", trace_of<Sim>(h).c_str());
     fflush(stdout);
     std::vector<std::string> trs;
-    for (size_t i = 0; i < h.size(); i++) trs.push_back(trace_of<Sim>(h.substr(0, i + 1)));
+    for (size_t i = 0; i < hlen(h); i++) trs.push_back(trace_of<Sim>(h.substr(0, 2 * (i + 1))));
     ctx.replay_report.reserve(1 << 16);
     Sim sim;
-    for (size_t i = 0; i < h.size(); i++) {
-      unsigned op = (uint8_t)h[i];
+    for (size_t i = 0; i < hlen(h); i++) {
+      unsigned op = hop(h, i);
       if (!sim.enabled(op)) {
         printf("REPLAY-ERROR op %s not enabled at step %zu\n", Sim::op_name(op).c_str(), i);
         return 2;
@@ -139,17 +146,42 @@ struct Explorer {
           out = fopen(p.c_str(), "ab");
           out_depth = (int)depth;
         }
-        for (unsigned op = 0; op < M; op++) {
+        // which operations are enabled in this state (decided by the model) is computed once
+        std::vector<unsigned> en;
+        {
+          const std::string trh0 = trace_of<Sim>(h);
+          Sim probe;
+          bool ok0 = true;
+          for (size_t i = 0; i < hlen(h) && ok0; i++) {
+            unsigned o = hop(h, i);
+            if (!probe.enabled(o)) {
+              ok0 = false;
+              break;
+            }
+            vr::Ctx quiet;
+            quiet.replay = true;
+            quiet.quiet = true;
+            probe.apply(o, quiet, trh0);
+          }
+          if (!ok0 || probe.key() != fk[idx]) {
+            ctx.publish(pack(h));
+            ctx.violation("replay_divergence", "harness_replay_divergence", trh0, "harness error: replaying the history does not reproduce the recorded state key");
+            return;
+          }
+          for (unsigned op = 0; op < M; op++)
+            if (probe.enabled(op)) en.push_back(op);
+        }
+        for (unsigned op : en) {
           // all harness strings are built BEFORE the simulated objects exist, so that a
           // Sim may compare heap usage at its construction with heap usage after teardown
           std::string h2 = h;
-          h2.push_back((char)op);
+          hpush(h2, op);
           const std::string tr = trace_of<Sim>(h2);
           const std::string trh = trace_of<Sim>(h);
           Sim sim;
           bool ok = true;
-          for (size_t i = 0; i < h.size(); i++) {
-            unsigned o = (uint8_t)h[i];
+          for (size_t i = 0; i < hlen(h); i++) {
+            unsigned o = hop(h, i);
             if (!sim.enabled(o)) {
               ok = false;
               break;
